@@ -287,3 +287,34 @@ func Check(property, test string, c interface{}, err error, fatal func(string, .
 	path := SaveFailure(property, test, c, v)
 	fatal("VIOLATION-CASE property=%s test=%s class=%s file=%s: %s", property, test, v.Class, path, v.Msg)
 }
+
+// Journal records the case that is about to be executed, flushed to disk
+// before execution, so that if the process dies (out-of-memory abort, runtime
+// fatal error, stack exhaustion) the driver still has the exact input. The
+// file is a failure/replay file whose class says the process died.
+func Journal(property, test, class string, c interface{}) {
+	dir := os.Getenv("VERIF_FAILDIR")
+	if dir == "" {
+		return
+	}
+	raw, err := json.Marshal(c)
+	if err != nil {
+		return
+	}
+	f := Failure{Property: property, Test: test, Class: class, Message: "the test process died while executing this case", Case: raw}
+	data, _ := json.Marshal(f)
+	os.WriteFile(journalPath(dir, property, test), data, 0o644)
+}
+
+// JournalDone removes the journal entry after the case returned.
+func JournalDone(property, test string) {
+	dir := os.Getenv("VERIF_FAILDIR")
+	if dir == "" {
+		return
+	}
+	os.Remove(journalPath(dir, property, test))
+}
+
+func journalPath(dir, property, test string) string {
+	return filepath.Join(dir, fmt.Sprintf("%s-%s-s%s.current.json", property, test, os.Getenv("VERIF_SHARD")))
+}
